@@ -230,6 +230,8 @@ class Folder:
             raise Unsupported("binary %s" % op)
         if k == "agg" and rv.get("agg") == "tuple":
             return ("tuple",) + tuple(self._operand(f, body, env, o) for o in rv["ops"])
+        if k == "agg" and rv.get("agg") == "closure":
+            return ("closure", rv["def"], tuple(self._operand(f, body, env, o) for o in rv["ops"]))
         raise Unsupported("rvalue %s" % k)
 
     def _intrinsic(self, f, fr, args):
@@ -251,6 +253,51 @@ class Folder:
             return len(a[0][1])
         if base in ("[T]::is_empty",) and isinstance(a[0], tuple) and a[0][0] == "bytes":
             return int(len(a[0][1]) == 0)
+        def call_closure(c, arg):
+            if isinstance(c, tuple) and c[0] == "closure":
+                return self.call(c[1], [("tuple",) + tuple(c[2]), arg])
+            raise Unsupported("call of a non-closure value")
+        s0 = a[0] if a and isinstance(a[0], tuple) and a[0][0] == "str" else None
+        it0 = a[0] if a and isinstance(a[0], tuple) and a[0][0] == "iter" else None
+        if s0 is not None:
+            if base == "str::is_empty":
+                return int(s0[1] == "")
+            if base == "str::len":
+                return len(s0[1].encode("utf-8"))
+            if base == "str::lines":
+                return ("iter", tuple(("str", x) for x in s0[1].splitlines()) if not any(c in s0[1] for c in "\x0b\x0c\x1c\x1d\x1e\x85\u2028\u2029") else
+                        tuple(("str", x[:-1] if x.endswith("\r") else x) for x in (s0[1][:-1] if s0[1].endswith("\n") else s0[1]).split("\n")) if s0[1] else ())
+            if base == "str::chars":
+                return ("iter", tuple(ord(c) for c in s0[1]))
+            if base in ("str::starts_with", "str::ends_with") and len(a) > 1:
+                pat = a[1]
+                pat = chr(pat) if isinstance(pat, int) else (pat[1] if isinstance(pat, tuple) and pat[0] == "str" else None)
+                if pat is not None:
+                    return int(s0[1].startswith(pat) if base == "str::starts_with" else s0[1].endswith(pat))
+            if base == "str::contains" and len(a) > 1 and isinstance(a[1], tuple) and a[1][0] == "str":
+                return int(a[1][1] in s0[1])
+        if it0 is not None and len(a) > 1:
+            nm = base.rsplit("::", 1)[-1]
+            if nm in ("all", "any"):
+                rs = [bool(call_closure(a[1], x)) for x in it0[1]]
+                return int(all(rs) if nm == "all" else any(rs))
+            if nm == "find":
+                for x in it0[1]:
+                    if call_closure(a[1], ("ref", x)):
+                        return ("some", x)
+                return ("none",)
+        if it0 is not None and base.rsplit("::", 1)[-1] == "next":
+            raise Unsupported("stateful iterator")
+        if a and isinstance(a[0], tuple) and a[0][0] in ("some", "none"):
+            nm = base.rsplit("::", 1)[-1]
+            if nm == "is_some":
+                return int(a[0][0] == "some")
+            if nm == "is_none":
+                return int(a[0][0] == "none")
+            if nm == "is_some_and" and len(a) > 1:
+                return int(a[0][0] == "some" and bool(call_closure(a[1], a[0][1])))
+            if nm == "is_none_or" and len(a) > 1:
+                return int(a[0][0] == "none" or bool(call_closure(a[1], a[0][1])))
         if base.startswith(("u8::is_ascii", "char::is_ascii")) and isinstance(a[0], int):
             nm = base.split("::", 1)[1]
             c = a[0]
